@@ -278,7 +278,9 @@ def s_toeplitz(world, table, cls, fn):
     if not (calls_builder(fn) and calls_builder(dense_apply)):
         return False, 'as_matrix and the dense method do not share dense_symmetric_band_toeplitz'
     src = ast.unparse(fn)
-    sig_ok = any(isinstance(n, ast.Constant) and isinstance(n.value, str) and n.value.replace(' ', '') == '(n),(k)->(n,n)' for n in ast.walk(fn))
+    from ..loader import string_constants
+
+    sig_ok = any(v.replace(' ', '') == '(n),(k)->(n,n)' for v in string_constants(fn))
     blockdiag = any(isinstance(n, ast.Call) and world.qualify(module_of(n), n.func) == 'jax.scipy.linalg.block_diag' for n in ast.walk(fn))
     if sig_ok and blockdiag:
         return True, 'per-row dense builder shared with the dense method, vectorised (n),(k)->(n,n), batch rows assembled with block_diag'
